@@ -143,11 +143,13 @@ Definition expand_level (blk : list nat -> Q -> bool) (verts : list nat) (K : cp
 Fixpoint expand (blk : list nat -> Q -> bool) (verts : list nat) (levels : nat) (K : cplx) : cplx :=
   match levels with O => [] | S l => let K' := expand_level blk verts K in K' ++ expand blk verts l K' end.
 
-(* number of levels built above the edges.  expansion(max_dim): "if (max_dim <= 1) return", otherwise down to k = 0 from
+(* (as repaired in /repo by 'fix: expansion_with_blockers(max_dim <= 0) expanded the graph without any bound': both routines now
+   return at once for max_dim <= 1; before that repair the blocker route built N levels for max_dim <= 0)
+   number of levels built above the edges.  expansion(max_dim): "if (max_dim <= 1) return", otherwise down to k = 0 from
    max_dim - 1.  expansion_with_blockers(max_dim): recursion from k = max_dim - 1, stops at k == 0 only: for max_dim <= 0 the
    counter never meets 0 and the expansion is not limited (N levels exhaust any complex on N points). *)
 Definition extra_levels (blockers : bool) (N : nat) (dim_max : Z) : nat :=
-  if (dim_max <=? 0)%Z then (if blockers then N else O) else Z.to_nat (dim_max - 1).
+  if (dim_max <=? 0)%Z then O else Z.to_nat (dim_max - 1).
 
 Definition kept (mini : option Q) (pi : list nat) : list (nat * option Q) :=
   let ls := lambdas pi in
